@@ -118,3 +118,11 @@ def shrink_candidates(case):
         yield dict(case, times=ts[len(ts) // 2:])
         for i in range(min(len(ts), 12)):
             yield dict(case, times=ts[:i] + ts[i + 1:])
+
+
+MANIFEST = dict(
+    design_ref='6/C16',
+    text='Coq theorems over all integer instants (window exactness, day cover, nothing outside, distinct folders; legacy defect refuted with a witness) about a hand-written model of _get_id_prefixes + the last-modified predicate; model tied to /repo on every run by running the real S3TapeCassette (fake bucket, fake clock) and the model on the same window grid + random instants; direct predicate on the implementation searches for a failing window.',
+    note="Trusted: Coq kernel + vm_compute; hand-written model; correspondence harness (fake bucket behind the real S3BasicFacade, fake clock); strftime day formatting and 'process clock is UTC' are assumptions.",
+    technique='Coq proof (lia over Z) + model/implementation correspondence by vm_compute',
+)
